@@ -1,5 +1,6 @@
 use crate::{
     layouts::{VecZnx, VecZnxToMut, VecZnxToRef, ZnxInfos, ZnxView, ZnxViewMut},
+    reference::vec_znx::shift::vec_znx_carry_skip_bits,
     reference::znx::{
         ZnxAddAssign, ZnxCopy, ZnxExtractDigitAddMul, ZnxMulPowerOfTwoAssign, ZnxNormalizeDigit, ZnxNormalizeFinalStep,
         ZnxNormalizeFinalStepAssign, ZnxNormalizeFirstStep, ZnxNormalizeFirstStepAssign, ZnxNormalizeFirstStepCarryOnly,
@@ -78,7 +79,7 @@ fn vec_znx_normalize_inter_base2k<R, A, ZNXARI>(
     let res_size: usize = res.size();
     let a_size: usize = a.size();
 
-    let (carry, _) = carry.split_at_mut(n);
+    let (carry, zero) = carry.split_at_mut(n);
 
     let mut lsh: i64 = res_offset % base2k as i64;
     let mut limbs_offset: i64 = res_offset / base2k as i64;
@@ -112,6 +113,13 @@ fn vec_znx_normalize_inter_base2k<R, A, ZNXARI>(
     // If no limbs were discarded, initialize carry to zero
     if a_out_range == 0 {
         ZNXARI::znx_zero(carry);
+    }
+
+    // If the offset moves a entirely below the last limb of res, the carry
+    // computed above sits below that limb: bring it up to its scale.
+    if -limbs_offset > res_size as i64 {
+        let skip_limbs: usize = (-limbs_offset) as usize - res_size;
+        vec_znx_carry_skip_bits::<ZNXARI>(skip_limbs.saturating_mul(base2k), &mut zero[..n], carry);
     }
 
     // Zeroes bottom limbs that will not be interacted with
@@ -388,7 +396,17 @@ fn vec_znx_normalize_cross_base2k<R, A, ZNXARI>(
         // we can use `res_carry`, which contains the carry of propagating
         // the shifted reconstruction of `a` in `res_base2k` along with
         // the carry of a[0].
-        let carry_to_use = if a_start == a_end { a_carry } else { res_carry };
+        let carry_to_use = if a_start == a_end {
+            // The carry of `a` sits at bit `-limbs_offset * a_base2k`, which can be
+            // below the last limb of `res`: bring it up to the scale of that limb.
+            let a_carry_bit: usize = (-limbs_offset) as usize * a_base2k;
+            if a_carry_bit > res_tot_bits {
+                vec_znx_carry_skip_bits::<ZNXARI>(a_carry_bit - res_tot_bits, a_norm, a_carry);
+            }
+            a_carry
+        } else {
+            res_carry
+        };
 
         for j in 0..res_end {
             if j == res_end - 1 {
